@@ -83,6 +83,7 @@ func genStateful(t *rapid.T) Stateful {
 	c.OverType = rapid.SampledFrom([]byte{'Q', 'P', 'B', 'E', 'd', 'Y'}).Draw(t, "over-type")
 	c.OverBy = rapid.SampledFrom([]int{1, 2, 100, 4096, 5000, c.Limit, 3*c.Limit + 7}).Draw(t, "over-by")
 	c.Overs = rapid.SampledFrom([]int{1, 1, 1, 2, 5}).Draw(t, "overs")
+	c.Discarding = rapid.IntRange(0, 2).Draw(t, "while-discarding") == 0
 	c.Use = rapid.SampledFrom([]string{"execute", "execute-twice", "describe-portal", "describe-stmt", "bind-again"}).Draw(t, "use")
 	if rapid.IntRange(0, 3).Draw(t, "sub-minimum-lengths?") == 0 {
 		c.SubMin = rapid.SliceOfN(rapid.Uint32Range(0, 3), 1, 3).Draw(t, "sub-min")
